@@ -129,7 +129,18 @@ func (c02) Generate(r *engine.Rand, index int, tier string) *engine.Scenario {
 		g.emitStackSetup()
 		for i, n := 0, r.Range(1, 3); i < n; i++ {
 			g.filler(r.Intn(8))
-			switch r.Intn(5) {
+			switch r.Intn(7) {
+			case 5:
+				// copy loop: LD A,(HL+) ; LD (DE),A ; INC DE ; DEC BC ; LD A,B ; OR C ; JR NZ,-8
+				g.emit16(0x21, 0xd000+uint16(r.Intn(0x400)))
+				g.emit16(0x11, 0xd800+uint16(r.Intn(0x400)))
+				g.emit16(0x01, uint16(r.Range(1, 40)))
+				g.emit(0x2a, 0x12, 0x13, 0x0b, 0x78, 0xb1, 0x20, 0xf8)
+			case 6:
+				// wait until video memory may be written: LDH A,(STAT) ; AND 2 ; JR NZ,-6 ; then a store to VRAM
+				g.emit(0xf0, 0x41, 0xe6, 0x02, 0x20, 0xfa)
+				g.emit16(0x21, 0x8000+uint16(r.Intn(0x1800)))
+				g.emit(0x36, r.Byte())
 			case 0, 1:
 				g.emit(0xf0, 0x44, 0xfe, uint8(r.Range(1, 4)+i*4), 0x20, 0xfa) // LDH A,(LY) ; CP n ; JR NZ,-6
 			case 2:
